@@ -109,9 +109,10 @@ def _twin_job(job):
 
 
 def _failed_iteration_job(job):
-    """The user's likelihood raises ONCE part-way through an iteration; the caller catches the error and calls run() again (resuming the
-    object it has).  The iteration that failed appends nothing: afterwards every recorded quantity holds exactly the batches of the
-    iterations that completed, and the retried run appends one batch per iteration as usual."""
+    """The user's likelihood raises ONCE part-way through an iteration of a sampler stepped with the public sample(); the caller catches
+    the error (whatever type it surfaces as) and keeps stepping.  The iteration that failed appends nothing: afterwards every recorded
+    quantity holds exactly the batches of the iterations that completed, and every later iteration that completes appends one batch as
+    usual (a library that refuses to go on after the failure is fine: nothing is appended then either)."""
     core.import_repo()
     import warnings
 
@@ -138,14 +139,20 @@ def _failed_iteration_job(job):
     for k in range(40):
         H = s.state._history
         before = {kk: len(v) for kk, v in H.items()}
+        was_armed = state["armed"]
         try:
             s.sample()
-        except FloatingPointError:
-            failed_at = k
+        except Exception as ex:
+            fired_now = was_armed and not state["armed"]
+            if fired_now:
+                failed_at = k
             after = {kk: len(v) for kk, v in s.state._history.items()}
             if after != before:
-                return {"job": job, "bad": f"the iteration in which the user's likelihood raised changed the history lengths: {[(kk, before[kk], after[kk]) for kk in before if before[kk] != after[kk]]}"}
-            continue
+                what = "in which the user's likelihood raised" if fired_now else f"that raised {type(ex).__name__} after the failed iteration {failed_at}"
+                return {"job": job, "bad": f"the iteration {what} changed the history lengths: {[(kk, before[kk], after.get(kk)) for kk in before if before[kk] != after.get(kk)]}"}
+            if fired_now:
+                continue
+            break   # the library does not go on after the failure (or failed for a reason of its own): nothing more to observe
         after = {kk: len(v) for kk, v in s.state._history.items()}
         grown = {kk: after[kk] - before[kk] for kk in after}
         if any(g not in (0, 1) for g in grown.values()) or grown.get("beta") != 1 or grown.get("u") != 1 or grown.get("logl") != 1:
